@@ -17,8 +17,14 @@ PROPERTY = "C01"
 N_SHARDS = 64
 
 
+USM_INSTANCE = (1, 3, 6, 1, 6, 3, 15, 1, 1, 1, 0)  # usmStatsUnsupportedSecLevels.0, readable on every v3 agent
+U3 = sorted(scopes.U + [USM_INSTANCE])
+
+
 def bounds(tier):
-    return {"max_db": 3 if tier == "quick" else 5, "max_roots": 3, "py_max_db": 2}
+    if tier == "quick":
+        return {"max_db": 3, "max_roots": 3, "py_max_db": 2, "v3": [("v3:authPriv:md5", 1)]}
+    return {"max_db": 5, "max_roots": 3, "py_max_db": 2, "v3": [("v3:authPriv:md5", 2), ("v3:authNoPriv:sha1", 2), ("v3:noAuthNoPriv:md5", 1)]}
 
 
 def shards(tier):
@@ -26,7 +32,12 @@ def shards(tier):
     dbs = list(scopes.databases(b["max_db"]))
     # interleave sizes so that shards are balanced
     dbs.sort(key=lambda d: (hash(d) % 9973, d))
-    return [{"dbs": chunk, "tier": tier} for chunk in scopes.chunks(dbs, N_SHARDS)]
+    out = [{"dbs": chunk, "tier": tier, "version": "v2c"} for chunk in scopes.chunks(dbs, N_SHARDS)]
+    for version, max_db in b["v3"]:
+        dbs3 = list(scopes.databases(max_db, U3))
+        dbs3.sort(key=lambda d: (hash(d) % 9973, d))
+        out += [{"dbs": chunk, "tier": tier, "version": version} for chunk in scopes.chunks(dbs3, 16)]
+    return out
 
 
 def creds():
@@ -35,12 +46,23 @@ def creds():
     return V2C("public")
 
 
-def walk_case(db_idx, roots, api, client=None):
+def walk_case(db_idx, roots, api, client=None, version="v2c"):
     """Run one walk; -> (result tuple, exception, n_requests, violations)"""
-    db = scopes.db_from_indices(db_idx)
-    ag = ragent.Agent(db)
+    if version == "v2c":
+        db = scopes.db_from_indices(db_idx)
+        ag = ragent.Agent(db)
+    else:
+        from ..clock import CLOCK
+
+        db = scopes.db_from_indices(db_idx, U3)
+        _, level, method = version.split(":")
+        user, _ = world.v3_user(level, method)
+        ag = ragent.V3Agent(db, [user], clock=lambda: CLOCK.now)
     if client is None:
-        client, sender = world.make_client(creds(), ag.handle)
+        if version == "v2c":
+            client, sender = world.make_client(creds(), ag.handle)
+        else:
+            client, sender = world.make_client(world.v3_user(level, method)[1], ag.handle)
     else:
         sender = client.sender
         sender.handle = ag.handle
@@ -57,8 +79,11 @@ def walk_case(db_idx, roots, api, client=None):
             raise world.HarnessError(api)
     except world.Horizon as hz:
         result, exc = None, hz
-    nreq = len(ag.log)
+    nreq = len([e for e in ag.log if not e.get("discovery")])
     violations = judge(db, roots, api, result, exc, nreq)
+    for v in violations:
+        v["facts"]["version"] = version
+        v["detail"]["version"] = version
     return result, exc, nreq, violations
 
 
@@ -126,7 +151,19 @@ def run_shard(params, acc):
     tier = params["tier"]
     b = bounds(tier)
     lists = scopes.root_lists(b["max_roots"])
-    client, _ = world.make_client(creds(), lambda p: b"")
+    version = params.get("version", "v2c")
+    if version == "v2c":
+        client, _ = world.make_client(creds(), lambda p: b"")
+        universe = scopes.U
+    else:
+        from ..clock import CLOCK
+
+        CLOCK.reset()
+        world.reset_plugins()
+        _, level, method = version.split(":")
+        client, _ = world.make_client(world.v3_user(level, method)[1], lambda p: b"")
+        universe = U3
+        lists = lists + [((1, 3, 6, 1, 6, 3, 15),), ((1, 3, 3), (1, 3, 6, 1, 6, 3, 15))]
     for db_idx in params["dbs"]:
         db_idx = tuple(db_idx)
         by_set = {}
@@ -139,31 +176,31 @@ def run_shard(params, acc):
                 if len(roots) == 1:
                     apis.append("pywalk")
             for api in apis:
-                result, exc, nreq, violations = walk_case(db_idx, roots, api, client)
+                result, exc, nreq, violations = walk_case(db_idx, roots, api, client, version)
                 nontrivial = 1 if (nreq >= 2 and result) else 0
                 acc.count(evaluations=1, nontrivial=nontrivial, states=nreq + 1, transitions=nreq, traces=1)
                 acc.outcome("ok" if not violations else violations[0]["kind"])
                 if nontrivial:
                     acc.sample(
-                        {"db": [scopes.U[i] for i in db_idx], "roots": roots, "api": api, "requests": nreq, "yielded": [o for o, _ in result]},
+                        {"version": version, "db": [universe[i] for i in db_idx], "roots": roots, "api": api, "requests": nreq, "yielded": [o for o, _ in result]},
                         interesting=len(roots) > 1 and nreq > 2,
                     )
                 for v in violations:
-                    v["case"] = {"db": list(db_idx), "roots": [list(r) for r in roots], "api": api}
+                    v["case"] = {"db": list(db_idx), "roots": [list(r) for r in roots], "api": api, "version": version}
                     acc.violation(v)
                 if api == "multiwalk" and exc is None and result is not None:
                     key = frozenset(roots)
                     got = frozenset(o for o, _ in result)
                     if key in by_set and by_set[key][0] != got:
                         other = by_set[key]
-                        facts = {"db": sorted(scopes.db_from_indices(db_idx)), "roots": list(roots), "other_roots": list(other[1]),
+                        facts = {"db": sorted(scopes.db_from_indices(db_idx, universe)), "roots": list(roots), "other_roots": list(other[1]),
                                  "roots_ascending": list(roots) == sorted(roots) and list(other[1]) == sorted(other[1])}
                         acc.violation(
                             {
                                 "kind": "order-dependent",
                                 "detail": {**facts, "got": sorted(got), "other_got": sorted(other[0])},
                                 "facts": facts,
-                                "case": {"db": list(db_idx), "roots": [list(r) for r in roots], "api": api, "other_roots": [list(r) for r in other[1]]},
+                                "case": {"db": list(db_idx), "roots": [list(r) for r in roots], "api": api, "version": version, "other_roots": [list(r) for r in other[1]]},
                             }
                         )
                     by_set.setdefault(key, (got, roots))
@@ -172,10 +209,16 @@ def run_shard(params, acc):
 def replay(case):
     db_idx = tuple(case["db"])
     roots = tuple(tuple(r) for r in case["roots"])
-    result, exc, nreq, violations = walk_case(db_idx, roots, case["api"])
+    version = case.get("version", "v2c")
+    if version != "v2c":
+        from ..clock import CLOCK
+
+        CLOCK.reset()
+        world.reset_plugins()
+    result, exc, nreq, violations = walk_case(db_idx, roots, case["api"], None, version)
     if "other_roots" in case:
         other = tuple(tuple(r) for r in case["other_roots"])
-        r2, e2, _, _ = walk_case(db_idx, other, case["api"])
+        r2, e2, _, _ = walk_case(db_idx, other, case["api"], None, version)
         if exc is None and e2 is None and frozenset(o for o, _ in result) != frozenset(o for o, _ in r2):
             violations.append({"kind": "order-dependent", "detail": {"got": result, "other_got": r2}})
     return violations
@@ -185,8 +228,8 @@ def meta(tier):
     b = bounds(tier)
     return {
         "level": "model_checking",
-        "rule": "one execution per configuration (database subset of the 15-instance universe with |DB| <= %d) x (every ordered list of 1..3 pairwise disjoint roots from an 9-root menu) x API (multiwalk; walk for single roots; PyWrapper variants for |DB| <= %d); v2c; states = (configuration, exchange index) pairs, transitions = request/response exchanges; non-trivial = at least two requests and at least one instance yielded"
-        % (b["max_db"], b["py_max_db"]),
+        "rule": "one execution per configuration (database subset of the 15-instance universe with |DB| <= %d) x (every ordered list of 1..3 pairwise disjoint roots from an 9-root menu) x API (multiwalk; walk for single roots; PyWrapper variants for |DB| <= %d); v2c, and SNMPv3 %r on the universe extended by a usmStats counter instance; states = (configuration, exchange index) pairs, transitions = request/response exchanges; non-trivial = at least two requests and at least one instance yielded"
+        % (b["max_db"], b["py_max_db"], b["v3"]),
         "exhaustive": True,
         "bounds": b,
         "assumptions": [
